@@ -38,6 +38,7 @@ type c01Capture1 struct {
 	raw    bytes.Buffer
 	parsed bool
 	done   chan struct{}
+	remote string // the client's address of this connection: which case dialed it
 }
 
 func c01StartCapturePeer(t testing.TB) *c01CapturePeer {
@@ -52,7 +53,7 @@ func c01StartCapturePeer(t testing.TB) *c01CapturePeer {
 			if err != nil {
 				return
 			}
-			cp := &c01Capture1{done: make(chan struct{})}
+			cp := &c01Capture1{done: make(chan struct{}), remote: c.RemoteAddr().String()}
 			p.mu.Lock()
 			p.caps = append(p.caps, cp)
 			p.mu.Unlock()
@@ -92,6 +93,47 @@ func (p *c01CapturePeer) take() []*c01Capture1 {
 	return c
 }
 
+// takeFor returns the captures of the connections dialed from the given local addresses, waiting
+// (up to wait) until the listener has accepted all of them: under load the accept loop may run well
+// after the client has written its request and even after RoundTrip has returned (a write that
+// fails on its own, a time-out). Captures of other connections — dialed by an earlier case and
+// accepted late — stay where they are: they are not part of this exchange.
+func (p *c01CapturePeer) takeFor(addrs []string, wait time.Duration) []*c01Capture1 {
+	want := map[string]bool{}
+	for _, a := range addrs {
+		want[a] = true
+	}
+	deadline := time.Now().Add(wait)
+	for {
+		p.mu.Lock()
+		n := 0
+		for _, c := range p.caps {
+			if want[c.remote] {
+				n++
+			}
+		}
+		if n >= len(want) || time.Now().After(deadline) {
+			var mine, others []*c01Capture1
+			for _, c := range p.caps {
+				if want[c.remote] {
+					mine = append(mine, c)
+				} else {
+					select {
+					case <-c.done: // finished and never claimed: forget it
+					default:
+						others = append(others, c)
+					}
+				}
+			}
+			p.caps = others
+			p.mu.Unlock()
+			return mine
+		}
+		p.mu.Unlock()
+		time.Sleep(2 * time.Millisecond)
+	}
+}
+
 func c01SendErrKind(err error) string {
 	s := err.Error()
 	switch {
@@ -115,6 +157,8 @@ func TestVerif_C01_h1send(t *testing.T) {
 	r := s.Rand()
 	n := verifh.N(1500, 12000)
 	var dialFailed atomic.Bool // the loopback dial itself failed (ephemeral ports exhausted on a busy machine …): not a verdict on the code
+	var dialMu sync.Mutex
+	var dialed []string // local addresses of the connections dialed since the current attempt began
 	mk := func(compress bool) *Transport {
 		tr := T().EnableForceHTTP1()
 		tr.DisableCompression = !compress
@@ -124,6 +168,10 @@ func TestVerif_C01_h1send(t *testing.T) {
 			c, err := net.Dial("tcp", p.ln.Addr().String())
 			if err != nil {
 				dialFailed.Store(true)
+			} else {
+				dialMu.Lock()
+				dialed = append(dialed, c.LocalAddr().String())
+				dialMu.Unlock()
 			}
 			return c, err
 		})
@@ -190,7 +238,9 @@ func TestVerif_C01_h1send(t *testing.T) {
 		var err error
 		crashed := false
 		for attempt := 0; attempt < 6; attempt++ {
-			p.take()
+			dialMu.Lock()
+			dialed = nil
+			dialMu.Unlock()
 			dialFailed.Store(false)
 			req := build()
 			if txt, bad := verifh.Safely(func() { resp, err = tr.RoundTrip(req) }); bad {
@@ -215,7 +265,10 @@ func TestVerif_C01_h1send(t *testing.T) {
 			continue
 		}
 		tr.CloseIdleConnections()
-		caps := p.take()
+		dialMu.Lock()
+		mine := append([]string(nil), dialed...)
+		dialMu.Unlock()
+		caps := p.takeFor(mine, 5*time.Second)
 		for _, c := range caps {
 			select {
 			case <-c.done:
